@@ -6,10 +6,10 @@ from harness.common import fwd, pseudo, VOID, AXES, rot_from_rotvec
 from harness import pipeline as PL, solver as S
 
 SPEC = {
-    "gen": ["Rotations", "GetHkl", "SolverLeaf"],
+    "gen": ["Rotations", "GetHkl", "SolverLeaf", "UtilLeaf"],
     "modules": ["DiffcalcProofs.Props.C01", "DiffcalcProofs.Props.C01Sample", "DiffcalcProofs.Props.C01Detector", "DiffcalcProofs.Props.C01Assembly",
                 "DiffcalcProofs.Props.C01Assembly2", "DiffcalcProofs.Props.C01Bridge", "DiffcalcProofs.Props.TieSolver"],
-    "theorems": {"DiffcalcProofs.Props.TieSolver": ["TieSolver.phiAndQaz_generated", "TieSolver.chiAndQaz_generated", "TieSolver.qazValue_generated"],
+    "theorems": {"DiffcalcProofs.Props.TieSolver": ["TieSolver.phiAndQaz_generated", "TieSolver.chiAndQaz_generated", "TieSolver.qazValue_generated", "TieSolver.small_generated", "TieSolver.bound_generated", "TieSolver.sign_generated"],
         "DiffcalcProofs.Props.C01": [
         "C01.getPosition_guard", "C01.getPosition_pairs_virtualAngles", "C01.guard_forward_model", "C01.composition",
         "C01.detFromQaz_sound", "C01.threeSample_detector_sound", "C01.twoSampleAndReference_detector_sound"],
